@@ -39,7 +39,8 @@ Bind(k) == CASE k = 0 -> KindBind
              [] k = 9 -> <<[n |-> "a", v |-> F(-3, 1)], [n |-> "b", v |-> F(1, 2)], [n |-> "c", v |-> F(1, 0)], [n |-> "d", v |-> F(0, 0)]>>
              [] k = 10 -> <<[n |-> "a", v |-> NaN], [n |-> "b", v |-> PInf], [n |-> "c", v |-> NInf], [n |-> "d", v |-> F(3, 1)]>>
              [] k = 11 -> <<[n |-> "a", v |-> NaN], [n |-> "b", v |-> F(0, 0)], [n |-> "c", v |-> F(-2, 0)], [n |-> "d", v |-> PInf]>>
-             [] k = 12 -> <<[n |-> "a", v |-> F(1, 0)], [n |-> "b", v |-> F(0, 0)], [n |-> "c", v |-> F(-1, 0)], [n |-> "d", v |-> F(0, 0)]>>
+             [] k = 12 -> <<[n |-> "a", v |-> F(1, 0)], [n |-> "b", v |-> F(0, 0)], [n |-> "c", v |-> F(-1, 0)], [n |-> "d", v |-> NZero]>>
+             [] k = 13 -> <<[n |-> "a", v |-> F(0, 0)], [n |-> "b", v |-> F(3, 1)], [n |-> "c", v |-> PInf], [n |-> "d", v |-> F(0, 0)]>>
              [] k = 8 -> <<[n |-> "a", v |-> A(<<I(10), I(20), I(30)>>)], [n |-> "b", v |-> I(2)],
                            [n |-> "c", v |-> O(<<[pk |-> "k", pv |-> I(5)], [pk |-> "Name", pv |-> O(<<[pk |-> "k", pv |-> I(7)]>>)]>>)],
                            [n |-> "d", v |-> I(1)]>>
@@ -122,7 +123,13 @@ Ieee == {Bin(o, x, y) : o \in Ops, x \in Vars4, y \in Vars4}
         \cup {Tern(Bin(c, x, y), StrL("T"), StrL("F")) : c \in CmpOps, x \in Vars4, y \in Vars4}
         \cup {Bin(c, Pre("-", Bin("/", x, y)), z) : c \in CmpOps, x \in Vars4, y \in Vars4, z \in Vars4}
         \cup {Bin(c, Post(p, x), y) : c \in CmpOps, p \in {"++", "--"}, x \in Vars4, y \in Vars4}
+        \* the sign of a zero shows in what a division by it gives
+        \cup {Bin(c, Bin("/", x, Pre("-", y)), z) : c \in CmpOps, x \in Vars4, y \in Vars4, z \in Vars4}
+        \cup {Bin(c, Bin("/", x, Bin(ar, y, z)), FL(0)) : c \in {"<", ">", "=="}, ar \in {"+", "-", "*"}, x \in Vars4, y \in Vars4, z \in Vars4}
+        \cup {Bin(c, Bin("/", FL(1), Pre("-", Pre("-", x))), FL(0)) : c \in {"<", ">"}, x \in Vars4}
 IeeeLit == {Bin(c, Bin("/", FL(n1), FL(n2)), Bin("/", FL(n3), FL(n4))) : c \in CmpOps, n1 \in {0, 1}, n2 \in {0, 1}, n3 \in {0, 1}, n4 \in {0, 2}}
+           \cup {Bin(c, Bin("/", FL(n1), Pre("-", FL(n2))), FL(0)) : c \in CmpOps, n1 \in {0, 1}, n2 \in {0, 1}}
+           \cup {Bin(c, Bin("/", FL(1), Bin("-", FL(n1), FL(n2))), FL(0)) : c \in CmpOps, n1 \in {0, 1}, n2 \in {0, 1}}
 
 Cases ==
   CASE Family = "raw09" -> {[kind |-> "raw", src |-> r, b |-> 0, lay |-> "sp"] : r \in RawAny}
@@ -133,7 +140,7 @@ Cases ==
     [] Family = "members" -> {[kind |-> "tree", e |-> e, b |-> 8, lay |-> l] : e \in MemberOps, l \in {"sp", "tight", "par"}}
     [] Family = "faults"  -> {[kind |-> "tree", e |-> e, b |-> b, lay |-> l] : e \in Faults, b \in {1, 3}, l \in {"sp", "nl"}}
     [] Family = "assign"  -> {[kind |-> "assign", e |-> e, b |-> b, lay |-> l] : e \in Pairs \cup Terns \cup Mixed, b \in {1, 3}, l \in {"sp", "tight"}}
-    [] Family = "ieee" -> {[kind |-> "tree", e |-> e, b |-> b, lay |-> "sp"] : e \in Ieee, b \in {10, 11, 12}}
+    [] Family = "ieee" -> {[kind |-> "tree", e |-> e, b |-> b, lay |-> "sp"] : e \in Ieee, b \in {10, 11, 12, 13}}
                           \cup {[kind |-> "tree", e |-> e, b |-> 12, lay |-> l] : e \in IeeeLit, l \in {"sp", "tight"}}
     [] Family = "kindsinfix" -> {[kind |-> "tree", e |-> e, b |-> 0, lay |-> "sp"] : e \in KindsInfix}
     [] Family = "kindsother" -> {[kind |-> "tree", e |-> e, b |-> 0, lay |-> l] : e \in KindsOther, l \in {"sp", "tight"}}
